@@ -46,8 +46,11 @@ def gen_workload(rng, profile="c06"):
         pfail, pdep = rng.choice([0.2, 0.35, 0.5]), rng.choice([0.4, 0.6, 0.8])
     jobs = []
     for j in range(n):
-        if j > 0 and rng.random() < pcopy:
-            cands = [i for i in range(j) if jobs[i]["code"] != 0] * 3 + list(range(j))
+        # (a job whose process was left running by an earlier run is never copied: the marker of the copy
+        #  would appear in the directory that process is expected to fill)
+        plain = [i for i in range(j) if not jobs[i].get("adopt")]
+        if j > 0 and plain and rng.random() < pcopy:
+            cands = [i for i in plain if jobs[i]["code"] != 0] * 3 + plain
             i = rng.choice(cands)
             src = jobs[i]
             spec = dict(cls=src["cls"], name=src["name"], embed=[list(e) for e in src["embed"]],
